@@ -14,6 +14,12 @@ def div? (a b : Nat) : Option Nat := if b = 0 then none else some (a / b)
 /-- checked remainder -/
 def mod? (a b : Nat) : Option Nat := if b = 0 then none else some (a % b)
 
+/-- an `Option` value as the translator's (tag, payload) pair: the tag (`None` = 0, `Some _` = 1) … -/
+def otag (o : Option Nat) : Nat := match o with | none => 0 | some _ => 1
+
+/-- … and the payload (0 for `None`: the zero address / the default value) -/
+def oval (o : Option Nat) : Nat := match o with | none => 0 | some x => x
+
 @[simp] theorem div?_eq_some {a b c : Nat} : div? a b = some c ↔ b ≠ 0 ∧ c = a / b := by
   unfold div?; split <;> simp [*, eq_comm]
 
